@@ -239,7 +239,16 @@ fn no_esc(check: char, match_char: char, previous: char) -> bool {
 /// # Return
 /// * `Token`
 ///
-fn group_tokens(tokens: &Vec<Token>, mut index: usize) -> Token {
+fn group_tokens(tokens: &Vec<Token>, index: usize) -> Token {
+    let (token, _) = group_tokens_to(tokens, index);
+    return token;
+} // group_tokens
+
+// Does the work of group_tokens(). Also returns the index at which the
+// group ends: the index of its right parenthesis, or the number of tokens.
+// (The number of children of the group is not the number of tokens it
+// covers, when the group contains other groups.)
+fn group_tokens_to(tokens: &Vec<Token>, mut index: usize) -> (Token, usize) {
 
     let mut new_tokens: Vec<Token> = vec![];
     let size = tokens.len();
@@ -252,14 +261,14 @@ fn group_tokens(tokens: &Vec<Token>, mut index: usize) -> Token {
         if the_type == TokenType::LParen {
             index += 1;
             // Make a GROUP token.
-            let t = group_tokens(tokens, index);
+            let (t, end) = group_tokens_to(tokens, index);
             // Skip past tokens already processed.
             // +1 for right parenthesis
-            index += t.number_of_children() + 1;
+            index = end + 1;
             new_tokens.push(t);
         } else if the_type == TokenType::RParen {
             // Add all remaining tokens to the list.
-            return make_branch_token(TokenType::Group, new_tokens);
+            return (make_branch_token(TokenType::Group, new_tokens), index);
         } else {
             new_tokens.push(token);
         }
@@ -267,9 +276,9 @@ fn group_tokens(tokens: &Vec<Token>, mut index: usize) -> Token {
 
     } // for
 
-    return make_branch_token(TokenType::Group, new_tokens)
+    return (make_branch_token(TokenType::Group, new_tokens), index);
 
-} // group_tokens
+} // group_tokens_to
 
 
 /// group_and_tokens()
